@@ -35,7 +35,7 @@ def run_cases(b, cases, workdir, fmt=b"%{uid}/%{euid}:%{cmdline}"):
         with open(ctx.log, "wb"):
             pass
         os.chmod(ctx.log, 0o666)
-        s = drv.Script()
+        s = drv.Script().add("childtimeout", 10)
         s.add("sinkfile", "file", drv.hx(ctx.log)).add("sinkstd").add("sinkdevlog", "devlog", drv.hx(ctx.devlog)).add("ptypair")
         s.path(ctx.helper).argv([b"prog", b"x"]).envp([b"A=1"]).add("ret", -1, 2).add("snap", 0)
         for label, chain, ruid, euid, tty in batches[i]:
